@@ -522,17 +522,24 @@ _CAL = {}
 
 def _step_cost():
     """CPU seconds the engine needs for one full default step budget (calibration of the
-    CPU bound for script-level cases without a time limit; measured once per worker)."""
+    CPU bound for script-level cases without a time limit; measured once per worker).
+    Measured on a workload that is finite whatever the budgets do (2^14 paths), steps
+    counted through the poll callback."""
     if "t" not in _CAL:
         rx = _rx()
-        re_obj = rx.RegExp("^(a|a)*b")
-        t0 = time.process_time()
+        polls = _Polls()
+        t = 0.1
         try:
             with cpu_alarm(30):
-                re_obj.exec("a" * 40)
+                re_obj = rx.RegExp("^(a|a)*b", "", poll_callback=polls, poll_interval=50)
+                t0 = time.process_time()
+                re_obj.exec("a" * 14)
+                cpu = time.process_time() - t0
+            if polls.n >= 100:
+                t = cpu * DEFAULT_STEP_LIMIT / (polls.n * 50)
         except BaseException:  # noqa
             pass
-        _CAL["t"] = max(time.process_time() - t0, 0.01)
+        _CAL["t"] = min(max(t, 0.02), 0.5)
     return _CAL["t"]
 
 
